@@ -367,6 +367,11 @@ impl ReadonlyRandomAccessFile for SimFile {
         Ok(n)
     }
     fn len(&self) -> io::Result<u64> {
+        // the size query on a handle opened for appending (a log that is being reused) is a
+        // fault position of class `size`; sizes of read handles are not gated
+        if self.writable && self.append {
+            self.fs.lock().unwrap().gate("size", &self.path)?;
+        }
         Ok(self.inode.lock().unwrap().len() as u64)
     }
 }
